@@ -167,7 +167,10 @@ def _rx(toks, q_literal=False, star_slash_optional=False):
         elif kind == "any":
             out.append(re.escape("?") if q_literal else ".")
         else:
-            if star_slash_optional and i + 1 < len(toks) and toks[i + 1] == (G.LIT, "/") and (i == 0 or toks[i - 1] == (G.LIT, "/")):
+            j = i
+            while j > 0 and toks[j - 1][0] == G.GLOBSTAR:
+                j -= 1  # a run of dep5 wildcards becomes one run of asterisks in the glob
+            if star_slash_optional and i + 1 < len(toks) and toks[i + 1] == (G.LIT, "/") and (j == 0 or toks[j - 1] == (G.LIT, "/")):
                 out.append("(?:.*/)?")
                 i += 1
             else:
